@@ -265,12 +265,41 @@ def partsK (p : NumberParts) : Int := expInt p.exp - p.frac.length
 /-- the integer `v` is the value `±intp.frac · 10^exp` of the parts -/
 def PartsValue (p : NumberParts) (v : Int) : Prop := DecValue p.neg (partsM p) (partsK p) v
 
+/-- `lead` of `normalizeToIntString`: the leading zeros of the fraction when there is no integer part -/
+def partsLead (p : NumberParts) : Nat := if p.intp.length = 0 then leadZeros p.frac else 0
+
 /-- the size guards of `normalizeToIntString`: unless the mantissa is empty (value 0), the exponent
-must fit in an int32 and, when it is non-negative, `len(intp) + exp ≤ 20` -/
+must fit in an int32 and, when it is non-negative, `len(intp) + exp - lead ≤ 20` -/
 def PartsGuard (p : NumberParts) : Prop :=
   (p.intp = [] ∧ p.frac = []) ∨
   (-((2 : Int) ^ 31) ≤ expInt p.exp ∧ expInt p.exp < (2 : Int) ^ 31 ∧
-    (0 ≤ expInt p.exp → (p.intp.length : Int) + expInt p.exp ≤ 20))
+    (0 ≤ expInt p.exp → (p.intp.length : Int) + expInt p.exp - (partsLead p : Int) ≤ 20))
+
+/-- `s` is `leadZeros s` zeros followed by something that does not start with a zero -/
+theorem leadZeros_split (s : Bytes) : s = List.replicate (leadZeros s) 0x30#8 ++ s.drop (leadZeros s) ∧
+    (∀ c t, s.drop (leadZeros s) = c :: t → c ≠ 0x30#8) := by
+  unfold leadZeros
+  induction s with
+  | nil => simp
+  | cons c t ih =>
+    by_cases hc : c = 0x30#8
+    · rw [List.takeWhile_cons_of_pos (by simp [hc])]
+      simp only [List.length_cons, List.replicate_succ, List.drop_succ_cons, List.cons_append]
+      exact ⟨by rw [← ih.1, hc], ih.2⟩
+    · rw [List.takeWhile_cons_of_neg (by simp [hc])]
+      simp only [List.length_nil, List.replicate_zero, List.drop_zero, List.nil_append, true_and]
+      intro c' t' h; simp at h; rw [← h.1]; exact hc
+
+theorem natOfDigits_zeros_append (z : Nat) (x : Bytes) : natOfDigits (List.replicate z 0x30#8 ++ x) = natOfDigits x := by
+  rw [natOfDigits_append, natOfDigits_zeros]; simp
+
+theorem natOfDigits_ge_of_head {d : Byte} {t : Bytes} (hd : isDigit d = true) (hne : d ≠ 0x30#8) :
+    10 ^ t.length ≤ natOfDigits (d :: t) := by
+  rw [natOfDigits_cons]
+  have : digitVal d ≠ 0 := fun h => hne ((digitVal_eq_zero hd).1 h)
+  have h1 : 1 ≤ digitVal d := by omega
+  have := Nat.mul_le_mul_right (10 ^ t.length) h1
+  omega
 
 theorem parseIntBits_expStr {x : Bytes} (h : ExpStr x) (hne : x ≠ []) :
     parseIntBits 32 x =
@@ -417,26 +446,43 @@ theorem normalize_core (p : NumberParts) (hwf : PartsWF p) :
           have := decValue_neg_dvd hk hv
           exact not_dvd_of_mod_ten (partsM_mod_ten hwf hfne) (by omega) this
         · rw [if_neg hfl]
-          by_cases hg : (p.intp.length : Int) + x > 20
+          have hleadle : partsLead p ≤ p.frac.length := by
+            unfold partsLead leadZeros
+            split
+            · exact List.length_takeWhile_le _ _
+            · omega
+          have hlead : (if p.intp.length = 0 then leadZeros p.frac else 0) = partsLead p := rfl
+          simp only [hlead]
+          by_cases hg : (p.intp.length : Int) + x - (partsLead p : Int) > 20
           · rw [if_pos hg]
             rintro ⟨v, _, hgd⟩
             rcases hgd with h | ⟨_, _, h⟩
             · exact hne h
             · rw [hx] at h; have := h hx0; omega
           · rw [if_neg hg]
-            -- accepted: intp ++ frac ++ zeros
+            -- accepted: intp ++ frac[lead:] ++ zeros
             let z := x.toNat - p.frac.length
-            have hds : AllDigits (p.intp ++ (p.frac ++ List.replicate z 0x30#8)) := by
-              refine AllDigits.append.2 ⟨hwf.intp, AllDigits.append.2 ⟨hwf.frac, ?_⟩⟩
+            have hfracsplit := leadZeros_split p.frac
+            have hdropd : AllDigits (p.frac.drop (partsLead p)) :=
+              allDigits_of_sublist hwf.frac (fun d hd => List.mem_of_mem_drop hd)
+            have hds : AllDigits (p.intp ++ (p.frac.drop (partsLead p) ++ List.replicate z 0x30#8)) := by
+              refine AllDigits.append.2 ⟨hwf.intp, AllDigits.append.2 ⟨hdropd, ?_⟩⟩
               intro d hd; rw [List.eq_of_mem_replicate hd]; decide
-            have hne' : p.intp ++ (p.frac ++ List.replicate z 0x30#8) ≠ [] := by
-              intro h
-              have h1 := List.append_eq_nil_iff.1 h
-              exact hne ⟨h1.1, (List.append_eq_nil_iff.1 h1.2).1⟩
-            have hN : natOfDigits (p.intp ++ (p.frac ++ List.replicate z 0x30#8)) = partsM p * 10 ^ z := by
-              rw [← List.append_assoc, natOfDigits_append, natOfDigits_zeros]; simp [partsM]
-            have hNz : natOfDigits (p.intp ++ (p.frac ++ List.replicate z 0x30#8)) ≠ 0 := by
+            have hMlead : natOfDigits (p.intp ++ p.frac.drop (partsLead p)) = partsM p := by
+              unfold partsM partsLead
+              split
+              next h0' =>
+                have hi : p.intp = [] := List.length_eq_zero_iff.1 h0'
+                rw [hi, List.nil_append, List.nil_append]
+                conv => rhs; rw [hfracsplit.1]
+                rw [natOfDigits_zeros_append]
+              next => simp
+            have hN : natOfDigits (p.intp ++ (p.frac.drop (partsLead p) ++ List.replicate z 0x30#8)) = partsM p * 10 ^ z := by
+              rw [← List.append_assoc, natOfDigits_append, natOfDigits_zeros, hMlead]; simp
+            have hNz : natOfDigits (p.intp ++ (p.frac.drop (partsLead p) ++ List.replicate z 0x30#8)) ≠ 0 := by
               rw [hN]; exact Nat.mul_ne_zero hM (Nat.ne_of_gt (pow10_pos z))
+            have hne' : p.intp ++ (p.frac.drop (partsLead p) ++ List.replicate z 0x30#8) ≠ [] := by
+              intro h; rw [h] at hNz; exact hNz rfl
             have hsp := spellsInt_mk p.neg _ hne' hds (Or.inl hNz)
             refine ⟨_, ?_, Or.inr ⟨by rw [hx]; exact hr.1, by rw [hx]; exact hr.2, by rw [hx]; intro _; omega⟩, hsp⟩
             unfold PartsValue
